@@ -1,4 +1,5 @@
 import FimVerif.Model.Topo
+import FimVerif.Generated.TopoOrder
 /-!
 # C09's own additions to the topology model (Model/Topo.lean is shared with C07 and stays as it is)
 
@@ -59,5 +60,98 @@ def okOps : List AnyOp → Topo → List AnyOp
 def statesAny : List AnyOp → Topo → List Topo
   | [], _ => []
   | op :: rest, s => s :: statesAny rest (stepAny op s).2
+
+/-! ## write order of the building functions (table `Gen.TopoOrder.funcs`, read off the AST by gen/topoorder.py)
+
+`singleWrite toks`: on no path through the function does a step that can fail - a validation (`v`) or another write (`w`) -
+follow a write.  Such a function is atomic by its shape alone: whatever raises, raises before the one write (the write
+itself being atomic is the matter of the callee's own entry, or of `atomic_addGNode` & co. at the bottom).
+Everything else - a function with a rollback handler (`guarded`), a removal in several passes - must have exactly the shape
+pinned in Proofs/C09.lean (`pinnedOrder`), next to the theorem its atomicity rests on. -/
+namespace OrderTok
+open FimVerif.Gen.TopoOrder
+
+/-- `none`: some path has a fallible step after a write.  `some none`: every path returned.  `some (some d)`: paths fall
+through, `d` = a write may have happened.  (`fuel` bounds the size of the table entry; 0 counts as a violation.) -/
+def scan : Nat → Bool → List Tok → Option (Option Bool)
+  | 0, _, _ => none
+  | _, d, [] => some (some d)
+  | f + 1, d, .v :: r => if d then none else scan f d r
+  | f + 1, d, .w _ :: r => if d then none else scan f true r
+  | f + 1, d, .c :: r => scan f d r
+  | f + 1, d, .r :: r => scan f d r
+  | f + 1, _, .ret :: _ => let _ := f; some none
+  | f + 1, d, .ite a b :: r =>
+    match scan f d a, scan f d b with
+    | some none, some none => some none
+    | some (some x), some none => scan f x r
+    | some none, some (some y) => scan f y r
+    | some (some x), some (some y) => scan f (x || y) r
+    | _, _ => none
+  | f + 1, d, .loop b :: r =>
+    match scan f d b with
+    | none => none
+    | some none => scan f d r                       -- the body always returns: at most one pass
+    | some (some d1) =>
+      -- a second pass starts in the state the first one left
+      match scan f d1 b with
+      | none => none
+      | some _ => scan f d1 r
+  | f + 1, _, .guarded _ _ :: _ => let _ := f; none      -- a rollback handler: not atomic by shape alone, the shape must be pinned
+  | f + 1, _, .tryelse _ _ :: _ => let _ := f; none      -- any other try: likewise
+
+def singleWrite (toks : List Tok) : Bool := (scan 400 false toks).isSome
+
+/-- the shape as text (what `pinned` lists) -/
+def render : Nat → List Tok → String
+  | 0, _ => "…"
+  | _, [] => ""
+  | f + 1, t :: r =>
+    let one := match t with
+      | .v => "v" | .c => "c" | .r => "r" | .ret => "ret"
+      | .w s => "w(" ++ s ++ ")"
+      | .ite a b => "if{" ++ render f a ++ "|" ++ render f b ++ "}"
+      | .loop b => "loop{" ++ render f b ++ "}"
+      | .guarded b h => "guarded{" ++ render f b ++ "|" ++ render f h ++ "}"
+      | .tryelse b h => "tryelse{" ++ render f b ++ "|" ++ render f h ++ "}"
+    match r with
+    | [] => one
+    | _ => one ++ " " ++ render f r
+
+/-! ### what the scan means
+
+`Run toks σ e`: `σ` is the sequence of steps that can fail (`v`: no write, `w`: a write) along one path through `toks`, and
+`e` says whether that path returned.  Loops run any number of times, an `if` takes either branch.  (No constructor for the
+two `try` forms: the scan rejects them.)  `okSeq d σ`: started clean (`d = false`), no step follows a write in `σ`; started
+after a write, `σ` is empty.  Proofs/C09.lean proves `scan_sound`: an accepted function only has such paths - so whichever
+step of whichever path raises, no write has happened before it. -/
+
+inductive Ev where | v | w
+  deriving DecidableEq, Repr
+
+def okSeq : Bool → List Ev → Bool
+  | _, [] => true
+  | true, _ :: _ => false
+  | false, .v :: r => okSeq false r
+  | false, .w :: r => okSeq true r
+
+def wrote (d : Bool) (σ : List Ev) : Bool := d || σ.contains .w
+
+inductive Run : List Tok → List Ev → Bool → Prop
+  | nil : Run [] [] false
+  | v {r σ e} : Run r σ e → Run (.v :: r) (.v :: σ) e
+  | w {s r σ e} : Run r σ e → Run (.w s :: r) (.w :: σ) e
+  | c {r σ e} : Run r σ e → Run (.c :: r) σ e
+  | r {r σ e} : Run r σ e → Run (.r :: r) σ e
+  | ret {r} : Run (.ret :: r) [] true
+  | iteL {a b r σ₁ σ₂ e} : Run a σ₁ false → Run r σ₂ e → Run (.ite a b :: r) (σ₁ ++ σ₂) e
+  | iteLret {a b r σ} : Run a σ true → Run (.ite a b :: r) σ true
+  | iteR {a b r σ₁ σ₂ e} : Run b σ₁ false → Run r σ₂ e → Run (.ite a b :: r) (σ₁ ++ σ₂) e
+  | iteRret {a b r σ} : Run b σ true → Run (.ite a b :: r) σ true
+  | loopDone {b r σ e} : Run r σ e → Run (.loop b :: r) σ e
+  | loopStep {b r σ₁ σ₂ e} : Run b σ₁ false → Run (.loop b :: r) σ₂ e → Run (.loop b :: r) (σ₁ ++ σ₂) e
+  | loopRet {b r σ} : Run b σ true → Run (.loop b :: r) σ true
+
+end OrderTok
 
 end FimVerif.Topo
